@@ -86,6 +86,19 @@ func (t tagBlockInformation) Super() (*Value, error) {
 		return AsSafeValue(""), nil
 	}
 
+	// A block information that was stored away (`{% set b = block %}`) can be
+	// asked for its parent definition from inside that very definition: count
+	// the rendering like the execution of a nested block.
+	state := t.ctx.getNodeState()
+	depth, _ := state[tagBlockDepthKey{}].(int)
+	if depth >= maxBlockDepth {
+		return AsSafeValue(""), t.ctx.Error(fmt.Sprintf("maximum block nesting depth reached (max is %v)", maxBlockDepth), nil)
+	}
+	state[tagBlockDepthKey{}] = depth + 1
+	defer func() {
+		state[tagBlockDepthKey{}] = depth
+	}()
+
 	superCtx := NewChildExecutionContext(t.ctx)
 	superCtx.Private["block"] = tagBlockInformation{
 		// the next block.Super (inside the parent definition) starts from
